@@ -285,6 +285,25 @@ def impl_ranges_via_network(specs, n):
     return out
 
 
+def impl_range_from_yaml(spec, style):
+    """the specification written as YAML with its numbers in another spelling, read by the loader floogen uses
+    (ruamel round-trip: hex, octal, binary and underscore numbers arrive as subclasses of int)"""
+    import io
+    import ruamel.yaml
+
+    def spell(v):
+        if v < 0:
+            return str(v)
+        return {0: hex(v), 1: "0o%o" % v, 2: bin(v), 3: ("%d" % v if v < 1000 else "%d_%03d" % (v // 1000, v % 1000))}[style]
+    txt = "\n".join(f"{k}: {spell(v)}" for k, v in spec.items()) + "\n"
+    loaded = ruamel.yaml.YAML(typ="rt").load(io.StringIO(txt))
+    try:
+        r = AddrRange(**dict(loaded))
+    except Exception as e:  # pylint: disable=broad-except
+        return {"err": type(e).__name__}
+    return {"ok": [r.start, r.end, r.size, r.base, r.idx]}
+
+
 def impl_rule_literals(spec, aw):
     """[width, start, width, end] as written into the literals of a rule over this range (None if it cannot be read)"""
     import re
@@ -369,6 +388,15 @@ class C17Runner:
                                  "detail": f"AddrRange gives {ir['ok']}, as the range of an endpoint description it is {via}"}
                             rep.finding(f, {"property": pid, "finding": f, "spec": spec, "k": k,
                                             "array": 3 if stats["accepted"] % 2 else None})
+                    # the same numbers as the YAML loader delivers them when they are not written in plain decimal
+                    if spec and all(isinstance(v, int) for v in spec.values()):
+                        viay = impl_range_from_yaml(spec, stats["accepted"] % 4)
+                        stats["via-yaml"] += 1
+                        if viay.get("ok") != ir["ok"] and not rep.violations:
+                            f = {"claim": "range-changed-by-spelling", "site": json.dumps(spec),
+                                 "detail": f"AddrRange gives {ir['ok']}; with the numbers spelled in hex / octal / binary / with "
+                                           f"underscores and read by the YAML loader: {viay}"}
+                            rep.finding(f, {"property": pid, "finding": f, "spec": spec, "k": k, "yaml_style": stats["accepted"] % 4})
                     # … and next to a second window that starts where this one ends (two ranges stay two ranges)
                     if stats["accepted"] % 3 == 0:
                         nxt = {"start": ir["ok"][1], "size": 1 + stats["accepted"] % 7}
@@ -461,6 +489,11 @@ class C17Runner:
         ir, isi = impl_range(payload["spec"], payload.get("k"))
         if "ok" in ir and not range_holds(payload["spec"], payload.get("k"), ir, isi):
             rep.finding(payload["finding"], payload)
+        elif payload.get("yaml_style") is not None and "ok" in ir:
+            viay = impl_range_from_yaml(payload["spec"], payload["yaml_style"])
+            print("through the YAML loader:", viay)
+            if viay.get("ok") != ir["ok"]:
+                rep.finding(payload["finding"], payload)
         elif payload.get("render_aw"):
             lit = impl_rule_literals(payload["spec"], payload["render_aw"])
             aw, st, en = payload["render_aw"], payload["spec"]["start"], payload["spec"]["end"]
@@ -616,8 +649,12 @@ def impl_idx_via_network(target, idx, flip=False):
     return {"nodes": [v for _, v in net.graph.out_edges(who) if net.graph.nodes[v].get("type") == "router"]}
 
 
-def select_good(dims, sel, arg, nm, ir):
+def select_good(dims, sel, arg, nm, ir, kind="array"):
     """C18 on one selection and what the implementation returned for it"""
+    if sel == "range" and kind.startswith("tree"):
+        # the routers of a tree carry one index per level down to their own: a range with k dimensions addresses level k-1
+        exp = expected_range(dims[:len(arg)], arg, nm) if len(arg) <= len(dims) else None
+        return (exp is None and "err" in ir) or (exp is not None and ir.get("nodes") == exp)
     if sel == "range":
         exp = expected_range(dims, arg, nm)
         return (exp is None and "err" in ir) or (exp is not None and ir.get("nodes") == exp)
@@ -655,6 +692,14 @@ class C18Runner:
                         cases.append(("array", [m, n], "idx", [i, j]))
         trees = [[a] for a in range(1, 4)] + [[a, b] for a in range(1, 4) for b in range(1, 4)] + \
                 [[a, b, c] for a in range(1, 4) for b in range(1, 4) for c in range(1, 4)]
+        # range selections on the routers of a tree: one dimension per level, also fewer than the depth
+        for t in ([1, 2, 2], [2, 2, 2], [1, 3, 2], [2, 3]):
+            for depth in range(1, len(t) + 1):
+                lo = [[0, x - 1] for x in t[:depth]]
+                variants = [lo, [[x - 1, 0] for x in t[:depth]], [[0, 0]] * (depth - 1) + [[0, t[depth - 1] - 1]],
+                            [[0, x - 1] for x in t[:depth - 1]] + [[0, t[depth - 1]]]]
+                for v in variants:
+                    cases.append(("tree", t, "range", v))
         # fan-outs with two-digit child indices (the order of a level is numeric, not lexicographic)
         trees += [[12], [1, 12], [2, 11]] + ([[1, 3, 11], [11, 2]] if tier == "thorough" else [])
         for t in trees:
@@ -684,7 +729,7 @@ class C18Runner:
                 ir = impl_select(kind, dims, sel, arg, nm)
                 if "nodes" in ir:
                     stats["returned"] += 1
-                good = select_good(dims, sel, arg, nm, ir)
+                good = select_good(dims, sel, arg, nm, ir, kind)
                 if not good and not rep.violations:
                     f = {"claim": "selector-result", "site": f"{kind}{dims} {sel} {arg}", "detail": json.dumps(ir)[:200]}
                     rep.finding(f, {"property": pid, "finding": f, "kind": kind, "dims": dims, "sel": sel, "arg": arg, "name": nm})
@@ -761,6 +806,6 @@ class C18Runner:
             return rep.exit_code()
         ir = impl_select(payload["kind"], payload["dims"], payload["sel"], payload["arg"], nm)
         print(ir)
-        if not select_good(payload["dims"], payload["sel"], payload["arg"], nm, ir):
+        if not select_good(payload["dims"], payload["sel"], payload["arg"], nm, ir, payload.get("kind", "array")):
             rep.finding(payload["finding"], payload)
         return rep.exit_code()
